@@ -35,7 +35,7 @@ CURATED = ['', ' ', '  ', 'a b', "it's", '"q"', '$(HOME)', '${HOME}', '$$', '$HO
 CONTEXTS = ['cmd_arg', 'cmd_env', 'cmd_word', 'cmds_multi', 'step_arg', 'step_jbos',
             'test_arg', 'test_env', 'driver_arg', 'driver_child', 'driver_child_wrap',
             'driver_nested', 'compile_opt', 'compile_opt_str', 'define_value',
-            'link_opt', 'link_opt_str']
+            'link_opt', 'link_opt_str', 'include_path']
 SCRIPT_CONTEXTS = ['global_opt', 'global_opt_str', 'global_link_opt', 'env_cflags',
                    'env_cppflags', 'env_ldflags', 'env_ldlibs']
 
@@ -58,6 +58,11 @@ def admissible(ctx, s):
         # a word of the form NAME=value is an assignment to sh, and a leading
         # '-' option for neither sh nor make: both are legitimate words
         if re.match(r'^[A-Za-z_][A-Za-z0-9_]*=', s):
+            return False
+    if ctx == 'include_path':
+        # a directory name below the source dir, passed as a header_directory()
+        if s in ('', '.', '..') or '/' in s or '\\' in s or s.startswith('~') or \
+           re.match(r'^.:', s) or len(s.encode('utf-8')) > 200 or s != s.strip('/'):
             return False
     if ctx in ('compile_opt_str', 'link_opt_str', 'lib_opt_str', 'global_opt_str',
                'env_cflags', 'env_cppflags', 'env_ldflags', 'env_ldlibs'):
@@ -107,6 +112,7 @@ def render_script(slots, script_slots=()):
     L = []
     words = []
     cmd_targets = []
+    incdirs = []
     defaults = []
     have_tests = False
     have_default = False
@@ -218,6 +224,14 @@ def render_script(slots, script_slots=()):
             defaults.append('t%d' % i)
             have_default = True
             exp[i] = {'kind': 'compile', 'opts': ['-DN=' + s], 'out': 'obj%d.o' % i}
+        elif ctx == 'include_path':
+            need_src = True
+            incdirs.append('inc%d/%s' % (i, s))
+            L.append("t%d = object_file('obj%d', file='s.c', "
+                     "includes=[header_directory(%s)])" % (i, i, _r('inc%d/%s' % (i, s))))
+            defaults.append('t%d' % i)
+            exp[i] = {'kind': 'compile', 'opts': ['-I@SRC@/inc%d/%s' % (i, s)],
+                      'out': 'obj%d.o' % i}
         elif ctx == 'link_opt':
             need_src = True
             L.append("t%d = executable('ex%d', files=[shared_obj], link_options=[%s])" % (i, i, _r(s)))
@@ -253,7 +267,7 @@ def render_script(slots, script_slots=()):
         text += "alias('runcmds', [%s])\n" % ', '.join(cmd_targets)
     if defaults:
         text += "default(%s)\n" % ', '.join(defaults)
-    return text, words, cmd_targets, have_tests, exp, genv
+    return text, words, cmd_targets, have_tests, exp, genv, incdirs
 
 
 # ---------------------------------------------------------------- running
@@ -268,7 +282,8 @@ class Outcome:
 
 def run_script(backend, slots, script_slots=(), keep=False):
     """Materialise, configure, run the back end.  -> (Outcome, exp)"""
-    text, words, cmd_targets, have_tests, exp, genv = render_script(slots, script_slots)
+    text, words, cmd_targets, have_tests, exp, genv, incdirs = render_script(slots,
+                                                                              script_slots)
     root = core.mkscratch('argfid')
     out = Outcome()
     try:
@@ -278,6 +293,11 @@ def run_script(backend, slots, script_slots=(), keep=False):
         os.makedirs(wbin)
         files = {'build.bfg': text, 's.c': 'int main(void){return 0;}\n'}
         proj.write_tree(src, files)
+        for d in incdirs:
+            try:
+                os.makedirs(os.path.join(src, d), exist_ok=True)
+            except OSError:
+                pass
         for w in set(words):
             try:
                 os.symlink(os.path.join(core.BIN, 'vstub'), os.path.join(wbin, w))
@@ -406,6 +426,7 @@ def judge(backend, slots, script_slots, out, exp, root_hint=None):
     def check_step(kind, rec, opts):
         t = need_tpl()[kind]
         cwd_root = os.path.dirname(rec['cwd'])
+        opts = [o.replace('@SRC@', os.path.join(cwd_root, 'src')) for o in opts]
         raw = colour_free(rec['argv'])
         # the template is normalised (names, root); expected options are compared
         # verbatim, so normalise argv element-wise only where it is not an option
